@@ -538,6 +538,12 @@ def _(eng, ci, a, sp):
     return Opaque('Stdout')
 
 
-@S('__private::format_err', 'anyhow::__private::format_err', 'Error::msg', 'anyhow::Error::msg', 'Error::new', 'anyhow::Error::new')
+@S('__private::format_err', 'anyhow::__private::format_err', 'Error::msg', 'anyhow::Error::msg', 'Error::new', 'anyhow::Error::new',
+   'impl_Error::msg', 'impl_Error::new')
 def _(eng, ci, a, sp):
     return Opaque('anyhow::Error', a[0])
+
+
+for _name, _val in (('F_WRLCK', 1), ('F_RDLCK', 0), ('F_UNLCK', 2), ('SEEK_SET', 0), ('FD_CLOEXEC', 1)):
+    for _pre in ('libc::', 'nix::libc::', ''):
+        S('const %s%s' % (_pre, _name))(lambda eng, _v=_val: _v)
